@@ -27,6 +27,8 @@ fn split3(s0: bool, s1: bool, s2: bool) {
     let i0 = any_in(0, 1000) as u32; let i1 = any_in(0, 1000) as u32; let i2 = any_in(0, 1000) as u32;
     ks::assume(i0 < i1 && i1 < i2);
     let d0 = any_in(1, 300); let d1 = any_in(1, 300); let d2 = any_in(1, 300);
+    // documented precondition: the list is sorted by (settlement date, read index)
+    ks::assume(d0 <= d1 && d1 <= d2);
     let rows = vec![
         tx_sec(name(s0), aff(0), date(d0), i0, buy(pos(1, 0), gez(1, 0), gez(0, 0), cad(), None)),
         tx_sec(name(s1), aff(0), date(d1), i1, buy(pos(1, 0), gez(1, 0), gez(0, 0), cad(), None)),
